@@ -14,6 +14,7 @@ import (
 	"errors"
 	"fmt"
 	"math/big"
+	"reflect"
 	"sort"
 	"strings"
 	"sync"
@@ -228,6 +229,13 @@ func (e c09EVM) TransactionReceipt(ctx context.Context, hash common.Hash) (*type
 	return e.h.typedReceipt(ctx, hash)
 }
 
+// the entry's `cancelled` flag, read by name so that the harness still builds on a tree whose
+// entry type has no such field (then: never flagged)
+func c09Flagged(d txnDetails) bool {
+	f := reflect.ValueOf(d).FieldByName("cancelled")
+	return f.IsValid() && f.Kind() == reflect.Bool && f.Bool()
+}
+
 type c09Ext struct {
 	id   int
 	tx   int
@@ -249,6 +257,8 @@ func c09Exec(t *testing.T, rng *vrng, transport string, plan []string) (c09In, c
 	nextID := 0
 	var exts []*c09Ext
 	internalOf := map[int]int{} // tx -> internal waiter id
+	internalDone := map[int]bool{} // internal waiter already has its outcome
+	observed := map[int]bool{}
 	closed := false
 	rowLen := func(tx int) int {
 		mon.mtx.Lock()
@@ -321,7 +331,8 @@ func c09Exec(t *testing.T, rng *vrng, transport string, plan []string) (c09In, c
 				e.done <- "error"
 			}
 		}()
-		// registered (row grew), refused / failed at once (done), or the tx is no longer pending
+		// registered (row grew), or answered at once (done): refused after shutdown, entry already
+		// flagged cancelled, or the client no longer tracks the hash
 		registered := false
 		waitFor(func() bool {
 			if rowLen(tx) > before {
@@ -336,21 +347,15 @@ func c09Exec(t *testing.T, rng *vrng, transport string, plan []string) (c09In, c
 				return false
 			}
 		})
-		select {
-		case v := <-e.done:
-			e.done <- v
-			if v == "unknown-tx" {
-				cancel()
-				return // the client no longer tracks this tx: not a waiter at all
-			}
-		default:
-		}
 		in.Steps = append(in.Steps, c09Step{T: "watch", Nonce: h.nonces[tx], Tx: tx})
-		if registered || !closed {
+		switch {
+		case registered:
 			e.id = nextID
 			nextID++
-		} else {
+		case closed:
 			e.id = -2 // refused after shutdown: no id allocated in the model
+		default:
+			e.id = -3 // answered from the client's own table: no waiter
 		}
 		exts = append(exts, e)
 	}
@@ -400,6 +405,30 @@ func c09Exec(t *testing.T, rng *vrng, transport string, plan []string) (c09In, c
 				waitFor(func() bool { return rowLen(tx) == 0 })
 			}
 		}
+		// the client's own waiter consumes its outcome asynchronously: wait until it did, and log
+		// the realised observe step (mined: entry deleted; replaced: entry flagged)
+		for _, hash := range hs {
+			tx := h.idx[hash]
+			a := answers[hash]
+			if a == "othererr" || internalDone[tx] {
+				continue
+			}
+			internalDone[tx] = true
+			hh := hash
+			ok := waitFor(func() bool {
+				c.mtx.Lock()
+				defer c.mtx.Unlock()
+				d, present := c.sentTxs[hh]
+				if a == "notfound" {
+					return !present || c09Flagged(d)
+				}
+				return !present
+			})
+			if ok {
+				observed[tx] = true
+				in.Steps = append(in.Steps, c09Step{T: "observe", W: internalOf[tx]})
+			}
+		}
 		time.Sleep(2 * time.Millisecond)
 		h.mu.Lock()
 		h.held = nil
@@ -408,6 +437,9 @@ func c09Exec(t *testing.T, rng *vrng, transport string, plan []string) (c09In, c
 	doClose := func() chan bool {
 		res := make(chan bool, 1)
 		closed = true
+		for tx := range internalOf {
+			internalDone[tx] = true // the drain answers every remaining waiter "closed"
+		}
 		go func() { res <- c.Close() != nil }()
 		in.Steps = append(in.Steps, c09Step{T: "beginShutdown"}, c09Step{T: "drain"})
 		// the watch loop's deferred drain runs at once; wait until the waiters saw it
@@ -474,11 +506,16 @@ func c09Exec(t *testing.T, rng *vrng, transport string, plan []string) (c09In, c
 	}
 	// quiescence
 	time.Sleep(5 * time.Millisecond)
+	var rest []int
 	for tx, w := range internalOf {
-		_ = tx
+		if !observed[tx] {
+			rest = append(rest, w)
+		}
+	}
+	sort.Ints(rest)
+	for _, w := range rest {
 		in.Steps = append(in.Steps, c09Step{T: "observe", W: w})
 	}
-	sort.SliceStable(in.Steps, func(a, b int) bool { return false })
 	for _, e := range exts {
 		var v string
 		select {
